@@ -5,6 +5,7 @@ package harness
 // nothing completely received before a loss is dropped.
 
 import (
+	"sync"
 	"fmt"
 	"sort"
 	"strings"
@@ -33,6 +34,10 @@ type c05Case struct {
 	// Glued (TCP): the whole feed leaves the server in the same write as the last reply of the negotiation (bind result,
 	// <enabled/>, component <handshake/>), so it is already buffered on the client side when the receive loop starts
 	Glued bool `json:"glued,omitempty"`
+	// Block (client over TCP): the application's handler of the first stanza does not return until everything else has
+	// been seen: the other stanzas must be routed all the same ("concurrently for a client"), a route registered
+	// meanwhile must not get in the way, and a stanza arriving then is routed too
+	Block bool `json:"block,omitempty"`
 }
 
 var c05Kinds = []string{"m", "m", "m", "p", "p", "iq-result", "iq-error", "iq-get", "iq-set", "r", "r", "a", "a0", "features", "enabled", "success"}
@@ -78,6 +83,9 @@ func genC05(t *rapid.T) c05Case {
 		}
 	}
 	c.End = rapid.SampledFrom([]string{"open", "open", "close", "halfclose", "streamerror"}).Draw(t, "end")
+	if c.Entity == "client" && c.Transport == "tcp" && rapid.IntRange(0, 3).Draw(t, "block") == 0 {
+		c.Block = true
+	}
 	if c.Transport == "tcp" && rapid.IntRange(0, 4).Draw(t, "glued") == 0 {
 		c.Glued = true
 		c.Chunks = nil
@@ -150,6 +158,11 @@ func runC05(c c05Case) vh.Result {
 	for i, it := range c.Items {
 		feed.WriteString(c05ItemXML(it, fmt.Sprintf("s%d", i), false))
 	}
+	block := c.Block && c.Entity == "client" && c.Transport == "tcp" && len(wantIDs) > 0
+	sendExtra, extraDone, release := make(chan struct{}), make(chan struct{}), make(chan struct{})
+	var releaseOnce sync.Once
+	doRelease := func() { releaseOnce.Do(func() { close(release) }) }
+	defer doRelease() // whatever happens, the parked handler goes away with the case
 	glued := c.Glued && c.Transport == "tcp"
 	if glued {
 		res.Label("feed-glued-to-last-negotiation-reply")
@@ -163,6 +176,7 @@ func runC05(c c05Case) vh.Result {
 	rec := newRecorder()
 	var disconnect func()
 	var connectErr error
+	var blockedRouter *xmpp.Router
 	countAnswers := func(evs []peer.Event) int {
 		n := 0
 		for _, e := range evs {
@@ -259,6 +273,17 @@ func runC05(c c05Case) vh.Result {
 				pc.SendChunks(feed.String(), c.Chunks)
 			}
 			close(fedc)
+			if block {
+				select {
+				case <-sendExtra:
+					pc.Send(inboundStanza("m", "late-1", 0))
+					select {
+					case <-extraDone:
+					case <-time.After(30 * time.Second):
+					}
+				case <-time.After(30 * time.Second):
+				}
+			}
 			deadline := time.Now().Add(vh.Margin(1500 * time.Millisecond))
 			for countAnswers(pc.Transcript()) < nR && time.Now().Before(deadline) && c.Entity == "client" {
 				if ev := pc.Next(time.Until(deadline)); ev.Kind == "eof" || ev.Kind == "error" {
@@ -310,6 +335,18 @@ func runC05(c c05Case) vh.Result {
 				return res
 			}
 			rec = r2
+			if block {
+				res.Label("first-handler-blocks")
+				blockID := wantIDs[0]
+				rec.mu.Lock()
+				rec.hook = func(p stanza.Packet) {
+					if _, id := packetID(p); id == blockID {
+						<-release
+					}
+				}
+				rec.mu.Unlock()
+				blockedRouter = xmpp.VerifRouter(cl)
+			}
 			connectErr = cl.Connect()
 			disconnect = func() { go func() { _ = cl.Disconnect() }() }
 		}
@@ -355,6 +392,34 @@ func runC05(c c05Case) vh.Result {
 		return ids
 	}
 	waitFor(vh.Margin(5*time.Second), func() bool { return len(routedIDs()) >= len(wantIDs) })
+	if block {
+		// the first handler is still busy: register a route (as an application may at any time) and let one more
+		// stanza arrive; both must go through without waiting for that handler
+		routeAdded := make(chan struct{})
+		go func() {
+			blockedRouter.NewRoute().Packet("never-matches").HandlerFunc(func(xmpp.Sender, stanza.Packet) {})
+			close(routeAdded)
+		}()
+		select {
+		case <-routeAdded:
+		case <-time.After(vh.Margin(3 * time.Second)):
+			res.Fail("t/newroute-blocked-by-handler", "client/tcp: Router.NewRoute did not return while the handler of %s was still running", wantIDs[0])
+		}
+		close(sendExtra)
+		wantIDs = append(wantIDs, "late-1")
+		if !waitFor(vh.Margin(4*time.Second), func() bool {
+			for _, id := range routedIDs() {
+				if id == "late-1" {
+					return true
+				}
+			}
+			return false
+		}) {
+			res.Fail("t/stanza-waits-for-busy-handler", "client/tcp sm=%s: while the handler of %s had not returned, %d of %d stanzas were routed and a stanza arriving then was not", c.SM, wantIDs[0], len(routedIDs()), len(wantIDs))
+		}
+		doRelease()
+		close(extraDone)
+	}
 	time.Sleep(vh.Margin(15 * time.Millisecond))
 	got := routedIDs()
 	var o peerObs
@@ -426,7 +491,7 @@ func peer10s() time.Duration { return 10 * time.Second }
 
 var c05 = vh.Define(&vh.Def[c05Case]{
 	Property: "C05", Name: "inbound",
-	Rule: "inbound histories of 0-40 top-level elements (message, presence, iq result/error/get/set with unique ids and sizes from empty to 30 KB, <r/>, <a/> with a huge and with a zero h, stream features, <enabled/>, SASL success) x {client over TCP, client over WebSocket, component over TCP} x stream management {negotiated, requested but not offered, off} x a segmentation (TCP write sizes 1-9000 / WebSocket continuation frames; or, over TCP, the whole feed in the same write as the last negotiation reply - bind result, <enabled/>, component <handshake/>) x ending {stay open, close, half-close, stream error}; a catch-all route records what is routed; oracle: after quiescence the multiset of routed ids equals the multiset sent (exactly once each, none foreign), components route in arrival order, with SM on every <r/> is answered (exactly once when the server sent no <a/>); the process must survive (the driver turns a process death into a violation with the journalled case); non-trivial = >= 3 stanzas and (a non-stanza element, a stanza > 4 KB, or a closing end)",
+	Rule: "inbound histories of 0-40 top-level elements (message, presence, iq result/error/get/set with unique ids and sizes from empty to 30 KB, <r/>, <a/> with a huge and with a zero h, stream features, <enabled/>, SASL success) x {client over TCP, client over WebSocket, component over TCP} x stream management {negotiated, requested but not offered, off} x a segmentation (TCP write sizes 1-9000 / WebSocket continuation frames; or, over TCP, the whole feed in the same write as the last negotiation reply - bind result, <enabled/>, component <handshake/>) x ending {stay open, close, half-close, stream error}; for a quarter of the TCP clients the handler of the first stanza does not return until everything else has been routed, a route is registered meanwhile and one more stanza arrives; a catch-all route records what is routed; oracle: after quiescence the multiset of routed ids equals the multiset sent (exactly once each, none foreign), components route in arrival order, with SM on every <r/> is answered (exactly once when the server sent no <a/>); the process must survive (the driver turns a process death into a violation with the journalled case); non-trivial = >= 3 stanzas and (a non-stanza element, a stanza > 4 KB, or a closing end)",
 	Quick: 1200, Thorough: 40000, Journal: true,
 	Gen: genC05, Run: runC05,
 })
